@@ -233,7 +233,7 @@ class SendRig:
             tree = sid in self.tree._streams
             if sid not in self.bufobj:
                 per.append([sid, 0, False, False, False, False, False, tree, (not self.tree._streams[sid].active) if tree else -1,
-                            "closed", False, True])
+                            "closed", False, True, -1])
                 continue
             b = self.bufobj[sid]
             inbufs = sid in p.stream_buffers and p.stream_buffers[sid] is b
@@ -243,7 +243,7 @@ class SendRig:
             per.append([sid, len(b.buffer), b._complete, b._is_empty.is_set(), b._paused.is_set(), inbufs,
                         sid in p.streams, tree, (not self.tree._streams[sid].active) if tree else -1,
                         conn.streams[sid].outbound_flow_control_window if (inbufs and h2open) else "closed",
-                        t.runnable(), t.done])
+                        t.runnable(), t.done, (sid in p.aborted_streams) if inbufs else -1])
         st = self.send_task
         if st.done:
             task = 3 if st.error is not None else 2
